@@ -17,7 +17,7 @@ func init() {
 	register(&Check{
 		ID:    "C15",
 		Level: "exploration",
-		Rule: "deviation-bounded layout exploration: every corpus/generated program is tokenised by an independent tokenizer and re-laid-out in a minimal base layout (blank only between adjacent words); then EVERY gap between tokens (plus before the first and after the last token) x 12 fillers {blank, newline, CR LF, form feed + vertical tab, tab run, line comment, block comment, blank-wrapped block comment, empty line comment, block comment ending in ')-', multi-line block comment, block comment with parenthesised remarks followed by blanks} with 1 deviation, every pair of gaps x filler pairs with 2 deviations on programs of <= 12 tokens, and every keyword in UPPER and Title case; " +
+		Rule: "deviation-bounded layout exploration: every corpus/generated program is tokenised by an independent tokenizer and re-laid-out in a minimal base layout (blank only between adjacent words); then EVERY gap between tokens (plus before the first and after the last token) x 12 fillers {blank, newline, CR LF, form feed + vertical tab, tab run, line comment, block comment, blank-wrapped block comment, empty line comment, block comment ending in ')-', multi-line block comment, block comment with parenthesised remarks followed by blanks} with 1 deviation, every pair of gaps x filler pairs with 2 deviations on programs of <= 12 tokens, every number glued to the word that follows it, and every keyword in UPPER and Title case; " +
 			"oracle: accepted iff the original is, parse trees reflect.DeepEqual, Run results equal on 3 probe texts; non-trivial = distinct variants of programs the original Compile accepts",
 		Assume: []string{"tokenizer vmc/corpus.go:vtokens is independent of the lexer under test", "ast nodes carry no source positions (DeepEqual compares structure)"},
 		Budget: map[string]int{"quick": 150, "thorough": 1200},
@@ -30,12 +30,21 @@ func isWordTok(t string) bool {
 		return false
 	}
 	c := t[0]
-	return c >= 'a' && c <= 'z' || c >= 'A' && c <= 'Z' || c >= '0' && c <= '9'
+	return c >= 'a' && c <= 'z' || c >= 'A' && c <= 'Z' || c >= '0' && c <= '9' || c >= 0x80
 }
 
 func lastIsWord(t string) bool {
 	c := t[len(t)-1]
-	return c >= 'a' && c <= 'z' || c >= 'A' && c <= 'Z' || c >= '0' && c <= '9'
+	return c >= 'a' && c <= 'z' || c >= 'A' && c <= 'Z' || c >= '0' && c <= '9' || c >= 0x80
+}
+
+func isNumberTok(t string) bool {
+	for i := 0; i < len(t); i++ {
+		if t[i] < '0' || t[i] > '9' {
+			return false
+		}
+	}
+	return t != ""
 }
 
 // layout renders tokens with the given separators: sep[i] precedes token i, sep[len] trails.
@@ -166,6 +175,18 @@ func runC15(c *Ctx) {
 	if !c.Level("1-deviation+case") {
 		return
 	}
+	// programs that are valid by construction in every layout below: if the original is rejected, every
+	// layout is, and the comparison between layouts has nothing to compare
+	for _, src := range c15MustAccept {
+		src := src
+		if !c.Unit(func() string { return "valid by construction: " + src }) {
+			continue
+		}
+		c.Eval(1)
+		if r, pi := c15Eval(src); pi != nil || !r.accepted {
+			c.Violation("REJECTED valid", fmt.Sprintf("%q is rejected (panic %v)", src, pi), map[string]any{"kind": "compile", "src": src, "want": "accepted"})
+		}
+	}
 	for _, prog := range corpus {
 		prog := prog
 		ts := vtokens(prog)
@@ -239,6 +260,12 @@ func runC15(c *Ctx) {
 			}
 			if g < len(ts) {
 				right = ts[g]
+			}
+			// a number needs no blank before the word that follows it (a word cannot start with a digit)
+			if isNumberTok(left) && right != "" && isWordTok(right) && !isNumberTok(right[:1]) {
+				s2 := append([]string{}, sep...)
+				s2[g] = ""
+				c15Compare(c, base, layout(ts, s2), fmt.Sprintf("gap[NUM|%s]/glued@%d", tokClass(right), g))
 			}
 			for fi, f := range c15Fillers {
 				s2 := append([]string{}, sep...)
@@ -322,4 +349,11 @@ func runC15(c *Ctx) {
 			}
 		}
 	}
+}
+
+// c15MustAccept: names made of non-ASCII letters, in layouts with and without blanks around them
+var c15MustAccept = []string{
+	"find all (digit) = \xc3\xb1 (\xc3\xb1) maybe \xc3\xb1", "find all(digit)=\xc3\xb1(\xc3\xb1)", "find all (digit) =\n\xc3\xb1", "find all (digit) = --(c)-- \xc3\xb1",
+	"set \xc3\xa9lan to pattern 'a' or 'b'\nfind all \xc3\xa9lan 'b' = a\xc3\xb1o a\xc3\xb1o", "set f to transform set \xc3\xb1 to 1 if 2 - \xc3\xb1 < \xc3\xb1 then return \xc3\xb1 end return 2 - \xc3\xb1 end\nreplace all 'a' with f",
+	"find all exactly 2upper", "find skip 1take 1 'a'", "find all between 1and 2 'a'",
 }
